@@ -651,6 +651,9 @@ func c13RunMode(x *X, c *Chooser, shape c13Shape, nregs int, passes int, endsOnl
 		specs[i] = spec{owner: c.Choose(len(c13Owners)), when: c.Choose(4), target: c.Choose(3)}
 		if endsOnly {
 			specs[i].at = []int{0, len(steps)}[c.Choose(2)]
+		} else if passes >= 2 {
+			// one more registration point: between the first and the second render pass
+			specs[i].at = c.Choose(len(steps) + 2)
 		} else {
 			specs[i].at = c.Choose(len(steps) + 1)
 		}
@@ -784,6 +787,12 @@ func c13RunMode(x *X, c *Chooser, shape c13Shape, nregs int, passes int, endsOnl
 		}
 		if !w.settle(e, fmt.Sprintf("render pass %d", p+1), true) {
 			return
+		}
+		if p == 0 && passes >= 2 {
+			// registrations made after the table has already been rendered once
+			if !doRegs(len(steps) + 1) {
+				return
+			}
 		}
 	}
 	key := fmt.Sprint(shape, specs, passes)
